@@ -92,6 +92,7 @@ def parse_info(line):
         k, v = kv.split("=", 1)
         d[k] = v
     for k in ("real", "blank", "nzbo"):
+        d.setdefault(k, "-")
         d[k] = [int(x) for x in d[k].split(",")] if d.get(k, "-") != "-" else []
     for k in ("order", "entries", "blanks", "closed", "ctx", "proper", "distinct", "unk", "hashinj"):
         d[k] = int(d[k])
@@ -198,6 +199,9 @@ def compare_enum(case, keys, impl_load_line, info, impl_lines, model_lines):
     problems = []
     load = parse_load(impl_load_line)
     n = 0
+    if info.get("prep") == "0":
+        problems.append({"kind": "represents", "cls": "P", "what": "the model-built probing structure does not represent Table.build "
+                         "(run-time counterexample to probing_build_represents)"})
     for cls, key in (("P", "pbuild"), ("R", "pbuildrest")):
         il, ml = load.get(cls), info.get(key)
         if il is None or ml is None:
